@@ -28,6 +28,8 @@ type Frame struct {
 	specBind map[string]*SVal // extra spec bindings (callpre params etc.)
 	allowed  map[string][]*Term
 	wholeOK  map[string]bool
+	labelFrame map[string][]string
+	deferredUnlock bool // set while running deferred calls at function exit
 	lockedKeys map[string]bool // fields protected by a lock this function acquired: no frame claim (other goroutines may write them)
 }
 
@@ -579,6 +581,9 @@ func (fr *Frame) execAssign(st *State, s *ast.AssignStmt) {
 
 func (fr *Frame) execReturn(st *State, s *ast.ReturnStmt) {
 	e := fr.e
+	if fr == fr.top {
+		st.retOrd = fr.fn.rets[s]
+	}
 	if len(s.Results) == 0 {
 		return
 	}
@@ -788,6 +793,9 @@ func (fr *Frame) execFor(st *State, s *ast.ForStmt, label string) []Outcome {
 	}
 	ord, invs := fr.loopInvs(s)
 	lc := &loopCtx{node: s, ord: ord, invs: invs}
+	if len(invs) > 0 {
+		st.addSnap(fmt.Sprintf("loop%d", ord)) // at(loopN, e): e in the state just before loop N
+	}
 	fr.checkInvs(st, lc, "entry", s)
 	head := st.Clone()
 	ms := fr.modsOf(s.Body, s.Post)
@@ -831,6 +839,9 @@ func (fr *Frame) execRange(st *State, s *ast.RangeStmt, label string) []Outcome 
 	xt := fr.info.TypeOf(s.X)
 	ord, invs := fr.loopInvs(s)
 	lc := &loopCtx{node: s, ord: ord, invs: invs}
+	if len(invs) > 0 {
+		st.addSnap(fmt.Sprintf("loop%d", ord))
+	}
 	ms := fr.modsOf(s.Body, nil)
 	if id, ok := s.Key.(*ast.Ident); ok && id.Name != "_" {
 		if v, ok := fr.info.ObjectOf(id).(*types.Var); ok {
@@ -1006,10 +1017,25 @@ func (fr *Frame) execLabelLoop(st *State, ls *ast.LabeledStmt, rest []ast.Stmt) 
 		nodes = append(nodes, r)
 	}
 	ms := fr.modsOfNodes(nodes)
-	fr.havocMods(head, ms)
+	fkeys := fr.havocMods(head, ms)
+	if fr.labelFrame == nil {
+		fr.labelFrame = map[string][]string{}
+	}
+	fr.labelFrame[lbl] = fkeys
+	// the entry state must satisfy the implicit frame invariant too
+	for _, k := range fkeys {
+		if g := fr.frameFact(st, k); g != nil {
+			fr.e.oblige(fr, st, fmt.Sprintf("labelinv.%s.frame-entry", lbl), shortKey(k), 0, g, ls, nil, "implicit loop invariant: only what `modifies` names may change")
+		}
+	}
 	if fr.fc != nil {
 		for _, c := range fr.fc.LabelInv[lbl] {
 			head.Assume(fr.evalSpecBool(head, c.Expr, nil, fr.entry))
+		}
+	}
+	for _, k := range fkeys {
+		if g := fr.frameFact(head, k); g != nil {
+			head.Assume(g)
 		}
 	}
 	if fr.labels == nil {
@@ -1028,6 +1054,13 @@ func (fr *Frame) checkLabelInv(st *State, lbl, phase string, n ast.Node) {
 	for i, c := range fr.fc.LabelInv[lbl] {
 		g := fr.evalSpecBool(st, c.Expr, nil, fr.entry)
 		fr.e.oblige(fr, st, fmt.Sprintf("labelinv.%s#%d-%s", lbl, i+1, phase), "", 0, g, n, c, "")
+	}
+	if phase == "preserve" {
+		for _, k := range fr.labelFrame[lbl] {
+			if g := fr.frameFact(st, k); g != nil {
+				fr.e.oblige(fr, st, fmt.Sprintf("labelinv.%s.frame-preserve", lbl), shortKey(k), 0, g, n, nil, "implicit loop invariant: only what `modifies` names may change")
+			}
+		}
 	}
 }
 
